@@ -727,6 +727,728 @@ Proof.
   exists [97;98;45;62;46;46;46;97;98], [[2;3]]%Z. split; vm_compute; reflexivity.
 Qed.
 
+(* ================================================================== *)
+(* general theorems: model parser = NumpySpec for ALL inputs           *)
+
+
+Lemma unlex_cons t ts : unlex (t :: ts) = unlex1 t ++ unlex ts.
+Proof. reflexivity. Qed.
+
+Lemma is_letter_not_reserved c : is_letter c = true ->
+  c <> c_space /\ c <> c_comma /\ c <> c_dash /\ c <> c_dot /\ c <> c_gt.
+Proof. unfold is_letter, c_space, c_comma, c_dash, c_dot, c_gt. lia. Qed.
+
+(* --- the lexer: numpy accepts  =>  the blank-free string is the rendering of the tokens --- *)
+Lemma np_lex_sound n : forall s ts, length s <= n -> np_lex s = Some ts ->
+  strip_spaces s = unlex ts /\ Forall tok_ok ts.
+Proof.
+  induction n as [|n IH]; intros s ts Hn.
+  - destruct s; [|cbn in Hn; lia]. cbn. intro H; inversion H; subst. split; [reflexivity|constructor].
+  - destruct s as [|x r]; [cbn; intro H; inversion H; subst; split; [reflexivity|constructor]|].
+    cbn in Hn. cbn [np_lex]. unfold strip_spaces. cbn [filter]. fold (strip_spaces r).
+    destruct (Nat.eqb x c_space) eqn:E1.
+    + cbn. intro H. apply IH; [lia|exact H].
+    + cbn [negb]. destruct (Nat.eqb x c_comma) eqn:E2.
+      * destruct (np_lex r) as [ts'|] eqn:L; [|discriminate]. cbn. intro H; inversion H; subst.
+        destruct (IH r ts' ltac:(lia) L) as [S1 S2]. apply Nat.eqb_eq in E2. subst x.
+        split; [rewrite unlex_cons; cbn; f_equal; exact S1|constructor; [exact I|exact S2]].
+      * destruct (is_letter x) eqn:E3.
+        -- destruct (np_lex r) as [ts'|] eqn:L; [|discriminate]. cbn. intro H; inversion H; subst.
+           destruct (IH r ts' ltac:(lia) L) as [S1 S2].
+           split; [rewrite unlex_cons; cbn; f_equal; exact S1|constructor; [exact E3|exact S2]].
+        -- destruct r as [|y r']; [discriminate|].
+           destruct (Nat.eqb x c_dash && Nat.eqb y c_gt) eqn:E4.
+           ++ destruct (np_lex r') as [ts'|] eqn:L; [|discriminate]. cbn [ocons]. intro H; inversion H; subst.
+              cbn in Hn. destruct (IH r' ts' ltac:(lia) L) as [S1 S2].
+              apply andb_true_iff in E4. destruct E4 as [A B]. apply Nat.eqb_eq in A, B. subst x y.
+              split; [|constructor; [exact I|exact S2]].
+              rewrite unlex_cons. cbn. f_equal. f_equal. exact S1.
+           ++ destruct r' as [|z r'']; [discriminate|].
+              destruct (dots3 x y z) eqn:E5; [|discriminate].
+              destruct (np_lex r'') as [ts'|] eqn:L; [|discriminate]. cbn [ocons]. intro H; inversion H; subst.
+              cbn in Hn. destruct (IH r'' ts' ltac:(lia) L) as [S1 S2].
+              unfold dots3 in E5. apply andb_true_iff in E5. destruct E5 as [E5 C].
+              apply andb_true_iff in E5. destruct E5 as [A B]. apply Nat.eqb_eq in A, B, C. subst x y z.
+              split; [|constructor; [exact I|exact S2]].
+              rewrite unlex_cons. cbn. f_equal. f_equal. f_equal. exact S1.
+Qed.
+
+Lemma np_lex_sound_all eq ts : np_lex eq = Some ts -> strip_spaces eq = unlex ts /\ Forall tok_ok ts.
+Proof. exact (np_lex_sound (length eq) eq ts (le_n _)). Qed.
+
+(* --- splitting --- *)
+Lemma tsplit_nonempty sep l : tsplit sep l <> [].
+Proof. destruct l as [|t r]; cbn; [discriminate|]. destruct (sep t); [discriminate|]. destruct (tsplit sep r); discriminate. Qed.
+
+Lemma split_arrow_cons x rest : x <> c_dash -> split_arrow (x :: rest) = cons_head x (split_arrow rest).
+Proof.
+  intro H. destruct rest as [|y r']; [reflexivity|].
+  cbn [split_arrow]. replace (Nat.eqb x c_dash) with false by (symmetry; apply Nat.eqb_neq; exact H). reflexivity.
+Qed.
+
+Lemma map_unlex_cons_head c h tl : map unlex ((TL c :: h) :: tl) = cons_head c (map unlex (h :: tl)).
+Proof. reflexivity. Qed.
+
+Lemma split_arrow_unlex ts : Forall tok_ok ts ->
+  split_arrow (unlex ts) = map unlex (tsplit is_arrow ts).
+Proof.
+  induction 1 as [|t ts Ht Hts IH]; [reflexivity|].
+  rewrite unlex_cons. destruct t as [c| | |]; cbn [unlex1 tsplit is_arrow app].
+  - destruct (is_letter_not_reserved c Ht) as [_ [_ [D _]]].
+    rewrite split_arrow_cons by exact D. rewrite IH.
+    destruct (tsplit is_arrow ts) as [|h tl] eqn:E; [exfalso; eapply tsplit_nonempty; exact E|]. reflexivity.
+  - rewrite !split_arrow_cons by (unfold c_dot, c_dash; lia). rewrite IH.
+    destruct (tsplit is_arrow ts) as [|h tl] eqn:E; [exfalso; eapply tsplit_nonempty; exact E|]. reflexivity.
+  - rewrite split_arrow_cons by (unfold c_comma, c_dash; lia). rewrite IH.
+    destruct (tsplit is_arrow ts) as [|h tl] eqn:E; [exfalso; eapply tsplit_nonempty; exact E|]. reflexivity.
+  - cbn [split_arrow]. rewrite !Nat.eqb_refl. cbn. rewrite IH. reflexivity.
+Qed.
+
+Definition no_arrow (t : tok) : Prop := is_arrow t = false.
+Lemma tsplit_arrow_no_arrow ts : Forall (Forall no_arrow) (tsplit is_arrow ts).
+Proof.
+  induction ts as [|t ts IH]; cbn; [repeat constructor|].
+  destruct (is_arrow t) eqn:E; [constructor; [constructor|exact IH]|].
+  destruct (tsplit is_arrow ts) as [|h tl]; [repeat constructor; exact E|].
+  inversion IH; subst. constructor; [constructor; assumption|assumption].
+Qed.
+
+Lemma split_comma_unlex ts : Forall tok_ok ts -> Forall no_arrow ts ->
+  split_char c_comma (unlex ts) = map unlex (tsplit is_comma ts).
+Proof.
+  induction 1 as [|t ts Ht Hts IH]; intro Hna; [reflexivity|].
+  inversion Hna as [|? ? Hn1 Hn2]; subst. specialize (IH Hn2).
+  rewrite unlex_cons. destruct t as [c| | |]; cbn [unlex1 tsplit is_comma app split_char].
+  - destruct (is_letter_not_reserved c Ht) as [_ [D _]].
+    replace (Nat.eqb c c_comma) with false by (symmetry; apply Nat.eqb_neq; exact D).
+    rewrite IH. destruct (tsplit is_comma ts) as [|h tl] eqn:E; [exfalso; eapply tsplit_nonempty; exact E|]. reflexivity.
+  - cbn. rewrite IH. destruct (tsplit is_comma ts) as [|h tl] eqn:E; [exfalso; eapply tsplit_nonempty; exact E|]. reflexivity.
+  - rewrite Nat.eqb_refl. rewrite IH. reflexivity.
+  - discriminate Hn1.
+Qed.
+
+(* --- one term (only letters and ellipses) --- *)
+Definition subst_toks (rep : str) (t : list tok) : str :=
+  concat (map (fun x => match x with TL c => [c] | TEll => rep | _ => [] end) t).
+
+Lemma only_labels_cons x t : only_labels (x :: t) = true ->
+  (match x with TL _ | TEll => True | _ => False end) /\ only_labels t = true.
+Proof. unfold only_labels. cbn. destruct x; cbn; intro H; try discriminate; auto. Qed.
+
+Lemma n_ell_cons x t : n_ell (x :: t) = (if is_ell x then 1 else 0) + n_ell t.
+Proof. unfold n_ell. cbn. destruct (is_ell x); reflexivity. Qed.
+Lemma letters_of_cons x t : letters_of (x :: t) = (match x with TL c => [c] | _ => [] end) ++ letters_of t.
+Proof. reflexivity. Qed.
+
+Lemma count_dot_unlex t : only_labels t = true -> Forall tok_ok t -> count c_dot (unlex t) = 3 * n_ell t.
+Proof.
+  induction t as [|x t IH]; intros Ho Hk; [reflexivity|].
+  destruct (only_labels_cons _ _ Ho) as [Hx Ho']. inversion Hk as [|? ? K1 K2]; subst.
+  rewrite unlex_cons, count_app, n_ell_cons, (IH Ho' K2). destruct x as [c| | |]; try contradiction; cbn.
+  - destruct (is_letter_not_reserved c K1) as [_ [_ [_ [D _]]]].
+    replace (Nat.eqb c c_dot) with false by (symmetry; apply Nat.eqb_neq; exact D). lia.
+  - lia.
+Qed.
+
+Lemma has_ell_cons_other c rest : c <> c_dot -> has_ell (c :: rest) = has_ell rest.
+Proof.
+  intro H. cbn [has_ell]. destruct rest as [|y [|z r]]; try reflexivity.
+  unfold dots3. replace (Nat.eqb c c_dot) with false by (symmetry; apply Nat.eqb_neq; exact H). reflexivity.
+Qed.
+Lemma has_ell_unlex t : only_labels t = true -> Forall tok_ok t -> 1 <= n_ell t -> has_ell (unlex t) = true.
+Proof.
+  induction t as [|x t IH]; intros Ho Hk Hn; [cbn in Hn; lia|].
+  destruct (only_labels_cons _ _ Ho) as [Hx Ho']. inversion Hk as [|? ? K1 K2]; subst.
+  rewrite unlex_cons. rewrite n_ell_cons in Hn. destruct x as [c| | |]; try contradiction; cbn [unlex1 app].
+  - destruct (is_letter_not_reserved c K1) as [_ [_ [_ [D _]]]].
+    rewrite has_ell_cons_other by exact D. apply IH; auto.
+  - reflexivity.
+Qed.
+
+Lemma check_ellipsis_unlex t : only_labels t = true -> Forall tok_ok t ->
+  check_ellipsis (unlex t) = match n_ell t with 0 => Some false | 1 => Some true | _ => None end.
+Proof.
+  intros Ho Hk. unfold check_ellipsis. rewrite (count_dot_unlex t Ho Hk).
+  destruct (n_ell t) as [|[|k]] eqn:E; [reflexivity| |].
+  - cbn. rewrite has_ell_unlex; auto. lia.
+  - replace (Nat.eqb (3 * S (S k)) 0) with false by (symmetry; apply Nat.eqb_neq; lia).
+    replace (Nat.eqb (3 * S (S k)) 3) with false by (symmetry; apply Nat.eqb_neq; lia). reflexivity.
+Qed.
+
+Lemma length_unlex t : only_labels t = true -> length (unlex t) = length (letters_of t) + 3 * n_ell t.
+Proof.
+  induction t as [|x t IH]; intros Ho; [reflexivity|].
+  destruct (only_labels_cons _ _ Ho) as [Hx Ho'].
+  rewrite unlex_cons, app_length, n_ell_cons, letters_of_cons, app_length, (IH Ho').
+  destruct x; try contradiction; cbn; lia.
+Qed.
+
+Lemma replace_ell_cons_other rep c rest : c <> c_dot -> replace_ell rep (c :: rest) = c :: replace_ell rep rest.
+Proof.
+  intro H. cbn [replace_ell]. destruct rest as [|y [|z r]]; try reflexivity.
+  unfold dots3. replace (Nat.eqb c c_dot) with false by (symmetry; apply Nat.eqb_neq; exact H). reflexivity.
+Qed.
+Lemma replace_ell_unlex rep t : only_labels t = true -> Forall tok_ok t ->
+  replace_ell rep (unlex t) = subst_toks rep t.
+Proof.
+  induction t as [|x t IH]; intros Ho Hk; [reflexivity|].
+  destruct (only_labels_cons _ _ Ho) as [Hx Ho']. inversion Hk as [|? ? K1 K2]; subst.
+  rewrite unlex_cons. unfold subst_toks. cbn [map concat]. fold (subst_toks rep t).
+  destruct x as [c| | |]; try contradiction; cbn [unlex1 app].
+  - destruct (is_letter_not_reserved c K1) as [_ [_ [_ [D _]]]].
+    rewrite replace_ell_cons_other by exact D. rewrite IH; auto.
+  - cbn [replace_ell]. unfold dots3. rewrite !Nat.eqb_refl. cbn. rewrite IH; auto.
+Qed.
+
+Lemma unlex_no_ell t : only_labels t = true -> n_ell t = 0 -> forall rep, unlex t = subst_toks rep t.
+Proof.
+  induction t as [|x t IH]; intros Ho Hn rep; [reflexivity|].
+  destruct (only_labels_cons _ _ Ho) as [Hx Ho']. rewrite n_ell_cons in Hn.
+  rewrite unlex_cons. unfold subst_toks. cbn [map concat]. fold (subst_toks rep t).
+  destruct x; try contradiction; cbn in *; [|lia]. f_equal. apply IH; auto.
+Qed.
+
+(* the specification's expansion of a term, renamed by rho, is the substitution of the symbols *)
+Lemma skipn_nth_cons {A} (d : A) i l : i < length l -> skipn i l = nth i l d :: skipn (S i) l.
+Proof.
+  revert i. induction l as [|x l IH]; intros i H; cbn in H; [lia|].
+  destruct i; [reflexivity|]. cbn. apply IH. lia.
+Qed.
+Lemma rho_bdims E nb : nb <= length E -> map (rho E) (bdims nb) = skipn (length E - nb) E.
+Proof.
+  unfold bdims. induction nb as [|nb IH]; intro H.
+  - cbn. rewrite Nat.sub_0_r, skipn_all. reflexivity.
+  - rewrite seq_S, rev_app_distr. cbn [rev app map plus]. rewrite IH by lia.
+    rewrite (skipn_nth_cons 0 (length E - S nb)) by lia.
+    replace (S (length E - S nb)) with (length E - nb) by lia.
+    cbn [rho]. f_equal. f_equal. lia.
+Qed.
+Lemma rho_expand_toks E nb t : only_labels t = true -> nb <= length E ->
+  map (rho E) (expand_toks nb t) = subst_toks (skipn (length E - nb) E) t.
+Proof.
+  intros Ho Hnb. unfold expand_toks, subst_toks. rewrite concat_map, map_map. f_equal.
+  induction t as [|x t IH]; [reflexivity|].
+  destruct (only_labels_cons _ _ Ho) as [Hx Ho']. cbn [map]. rewrite (IH Ho'). f_equal.
+  destruct x; try contradiction; [reflexivity|]. apply rho_bdims. exact Hnb.
+Qed.
+(* a term without ellipsis does not depend on nb *)
+Lemma expand_toks_no_ell nb t : n_ell t = 0 -> expand_toks nb t = expand_toks 0 t.
+Proof.
+  unfold expand_toks. induction t as [|x t IH]; intro H; [reflexivity|].
+  rewrite n_ell_cons in H. cbn [map concat]. rewrite IH by lia. destruct x; cbn in *; try reflexivity. lia.
+Qed.
+
+(* --- all operands: the first pass (ell_needs), the number of ellipsis symbols, the second pass --- *)
+Definition need_of (t : list tok) (nb : nat) : option Z :=
+  if Nat.eqb (n_ell t) 0 then None else Some (Z.of_nat nb).
+Definition needs_of (ops : list (list tok)) (nbs : list nat) : list (option Z) :=
+  map (fun tn => need_of (fst tn) (snd tn)) (combine ops nbs).
+
+Lemma np_operand_nb_spec t rank nb : np_operand_nb t rank = Some nb ->
+  (n_ell t = 0 /\ nb = 0 /\ rank = length (letters_of t)) \/
+  (n_ell t = 1 /\ length (letters_of t) <= rank /\ nb = rank - length (letters_of t)).
+Proof.
+  unfold np_operand_nb. destruct (n_ell t) as [|[|k]].
+  - destruct (Nat.eqb rank (length (letters_of t))) eqn:E; [|discriminate].
+    intro H; inversion H; subst. apply Nat.eqb_eq in E. left. auto.
+  - destruct (length (letters_of t) <=? rank) eqn:E; [|discriminate].
+    intro H; inversion H; subst. right. repeat split; lia.
+  - discriminate.
+Qed.
+
+Lemma ell_needs_unlex ops : forall shapes nbs,
+  forallb only_labels ops = true -> Forall (Forall tok_ok) ops ->
+  np_operands_nb ops shapes = Some nbs ->
+  ell_needs (map unlex ops) shapes = Some (needs_of ops nbs) /\
+  length nbs = length ops /\ length shapes = length ops /\
+  Forall (fun tn => n_ell (fst tn) = 0 -> snd tn = 0) (combine ops nbs).
+Proof.
+  induction ops as [|t ops IH]; intros shapes nbs Ho Hk; cbn [np_operands_nb].
+  - destruct shapes; [|discriminate]. intro H; inversion H; subst. cbn. auto.
+  - destruct shapes as [|sh shapes]; [discriminate|].
+    destruct (np_operand_nb t (length sh)) as [nb|] eqn:E1; [|discriminate].
+    destruct (np_operands_nb ops shapes) as [nbs'|] eqn:E2; [|discriminate].
+    intro H; inversion H; subst. cbn in Ho. apply andb_true_iff in Ho. destruct Ho as [Ho1 Ho2].
+    inversion Hk as [|? ? K1 K2]; subst.
+    destruct (IH shapes nbs' Ho2 K2 E2) as [I1 [I2 [I3 I4]]].
+    split; [|cbn; repeat split; try lia; constructor; [|exact I4]].
+    + cbn [map ell_needs]. rewrite I1. unfold ell_need. rewrite (check_ellipsis_unlex t Ho1 K1).
+      unfold needs_of. cbn [combine map fst snd].
+      destruct (np_operand_nb_spec _ _ _ E1) as [[A [B C]]|[A [B C]]].
+      * assert (Hn : need_of t nb = None) by (unfold need_of; rewrite A; reflexivity).
+        rewrite Hn, A. reflexivity.
+      * assert (Hn : need_of t nb = Some (Z.of_nat nb)) by (unfold need_of; rewrite A; reflexivity).
+        rewrite Hn, A. rewrite (length_unlex t Ho1), A. do 3 f_equal.
+        lia.
+    + cbn [fst snd]. intro A. destruct (np_operand_nb_spec _ _ _ E1) as [[_ [B _]]|[A' _]]; [exact B|lia].
+Qed.
+
+Lemma fold_max_acc l : forall a, a <= fold_left Nat.max l a.
+Proof. induction l as [|y l IH]; intro a; cbn; [lia|]. specialize (IH (Nat.max a y)). lia. Qed.
+Lemma fold_max_ge l : forall a x, x = a \/ In x l -> x <= fold_left Nat.max l a.
+Proof.
+  induction l as [|y l IH]; intros a x; cbn; [intros [->|[]]; lia|].
+  pose proof (fold_max_acc l (Nat.max a y)).
+  intros [->|[->|H']]; [lia|lia|apply IH; right; exact H'].
+Qed.
+Lemma fold_max_attained l : forall a, fold_left Nat.max l a = a \/ In (fold_left Nat.max l a) l.
+Proof.
+  induction l as [|y l IH]; intro a; cbn; [left; reflexivity|].
+  destruct (IH (Nat.max a y)) as [E|H]; [|right; right; exact H].
+  rewrite E. destruct (Nat.max_spec a y) as [[_ ->]|[_ ->]]; [right; left; reflexivity|left; reflexivity].
+Qed.
+
+Lemma in_somes {A} (x : A) l : In x (somes l) <-> In (Some x) l.
+Proof.
+  induction l as [|[a|] l IH]; cbn; [tauto| |].
+  - rewrite IH. split; [intros [->|H]; auto|intros [H|H]; [inversion H; auto|auto]].
+  - rewrite IH. split; [auto|intros [H|H]; [discriminate|auto]].
+Qed.
+
+Lemma in_needs_of ops nbs z : In (Some z) (needs_of ops nbs) <->
+  exists t nb, In (t, nb) (combine ops nbs) /\ n_ell t <> 0 /\ z = Z.of_nat nb.
+Proof.
+  unfold needs_of. rewrite in_map_iff. split.
+  - intros [[t nb] [E H]]. cbn in E. unfold need_of in E. destruct (Nat.eqb (n_ell t) 0) eqn:N; [discriminate|].
+    inversion E; subst. apply Nat.eqb_neq in N. eauto.
+  - intros [t [nb [H [N ->]]]]. exists (t, nb). split; [|exact H]. cbn. unfold need_of.
+    apply Nat.eqb_neq in N. rewrite N. reflexivity.
+Qed.
+
+Lemma req_is_max ops nbs :
+  length nbs = length ops ->
+  Forall (fun tn => n_ell (fst tn) = 0 -> snd tn = 0) (combine ops nbs) ->
+  (exists t, In t ops /\ n_ell t <> 0) ->
+  zmax_values (somes (needs_of ops nbs)) = Some (Z.of_nat (fold_left Nat.max nbs 0)).
+Proof.
+  intros HL H0 [t0 [Ht0 Hn0]].
+  set (N := fold_left Nat.max nbs 0).
+  (* the list is not empty *)
+  destruct (In_nth _ _ [] Ht0) as [i [Hi Ei]].
+  assert (Hin0 : In (t0, nth i nbs 0) (combine ops nbs)).
+  { rewrite <- Ei. rewrite <- combine_nth by lia. apply nth_In. rewrite combine_length. lia. }
+  assert (Hne : In (Z.of_nat (nth i nbs 0)) (somes (needs_of ops nbs))).
+  { apply in_somes, in_needs_of. eauto. }
+  destruct (somes (needs_of ops nbs)) as [|v vs] eqn:ES; [destruct Hne|].
+  unfold zmax_values. f_equal. fold (zmax_list vs v).
+  assert (Hall : forall z, In z (v :: vs) -> exists t nb, In (t, nb) (combine ops nbs) /\ n_ell t <> 0 /\ z = Z.of_nat nb).
+  { intros z Hz. rewrite <- ES in Hz. apply in_somes, in_needs_of in Hz. exact Hz. }
+  assert (Hge : forall z, In z (v :: vs) -> (z <= zmax_list vs v)%Z).
+  { intros z [<-|Hz]; [rewrite (zmax_list_acc vs v); lia|apply zmax_list_ge; exact Hz]. }
+  assert (Hatt : In (zmax_list vs v) (v :: vs)).
+  { destruct (zmax_list_attained vs v) as [E|H]; [left; symmetry; exact E|right; exact H]. }
+  apply Z.le_antisymm.
+  - destruct (Hall _ Hatt) as [t [nb [Hc [_ ->]]]].
+    apply in_combine_r in Hc. assert (nb <= N) by (apply fold_max_ge; right; exact Hc). lia.
+  - pose proof (fold_max_attained nbs 0) as HA. fold N in HA. destruct HA as [E|Hin].
+    + rewrite E. destruct (Hall _ Hatt) as [t [nb [_ [_ ->]]]]. lia.
+    + destruct (In_nth _ _ 0 Hin) as [j [Hj Ej]].
+      assert (Hcj : In (nth j ops [], N) (combine ops nbs)).
+      { rewrite <- Ej. rewrite <- combine_nth by lia. apply nth_In. rewrite combine_length. lia. }
+      destruct (Nat.eq_dec (n_ell (nth j ops [])) 0) as [Z0|NZ].
+      * rewrite Forall_forall in H0. specialize (H0 _ Hcj Z0). cbn in H0. rewrite H0.
+        destruct (Hall _ Hatt) as [t [nb [_ [_ ->]]]]. lia.
+      * apply Hge. rewrite <- ES. apply in_somes, in_needs_of. eauto.
+Qed.
+
+Lemma slice_from_nat {A} (k : nat) (l : list A) : k <= length l -> slice_from (Z.of_nat k) l = skipn k l.
+Proof.
+  intro H. unfold slice_from. replace (Z.of_nat k <? 0)%Z with false by lia.
+  rewrite Z.min_l by lia. rewrite Nat2Z.id. reflexivity.
+Qed.
+
+Lemma expand_term_spec E N t nb : only_labels t = true -> Forall tok_ok t -> length E = N -> nb <= N ->
+  expand_term (Z.of_nat N) E (unlex t) (need_of t nb) = map (rho E) (expand_toks nb t).
+Proof.
+  intros Ho Hk HE Hnb. rewrite rho_expand_toks by (auto; lia). rewrite HE.
+  unfold need_of, expand_term. destruct (Nat.eqb (n_ell t) 0) eqn:Z0.
+  - apply Nat.eqb_eq in Z0. apply unlex_no_ell; assumption.
+  - replace (Z.of_nat N - Z.of_nat nb)%Z with (Z.of_nat (N - nb)) by lia.
+    rewrite slice_from_nat by lia. apply replace_ell_unlex; assumption.
+Qed.
+
+Lemma expand_terms_spec E N ops : forall nbs,
+  forallb only_labels ops = true -> Forall (Forall tok_ok) ops -> length E = N ->
+  Forall (fun nb => nb <= N) nbs ->
+  expand_terms (Z.of_nat N) E (map unlex ops) (needs_of ops nbs) =
+  map (map (rho E)) (map (fun tn => expand_toks (snd tn) (fst tn)) (combine ops nbs)).
+Proof.
+  unfold expand_terms, needs_of.
+  induction ops as [|t ops IH]; intros nbs Ho Hk HE Hnb; [reflexivity|].
+  destruct nbs as [|nb nbs]; [reflexivity|].
+  cbn in Ho. apply andb_true_iff in Ho. destruct Ho as [Ho1 Ho2].
+  inversion Hk as [|? ? K1 K2]; subst. inversion Hnb as [|? ? B1 B2]; subst.
+  cbn [map combine fst snd]. f_equal; [apply expand_term_spec; auto|]. apply IH; auto.
+Qed.
+
+(* --- the left-hand side as a whole: dots, letters, implicit output --- *)
+Definition lhs_tok (t : tok) : Prop := match t with TArrow => False | _ => True end.
+
+Lemma memb_app x l1 l2 : memb x (l1 ++ l2) = memb x l1 || memb x l2.
+Proof. unfold memb. apply existsb_app. Qed.
+
+Lemma memb_dot_unlex l : Forall tok_ok l -> memb c_dot (unlex l) = existsb is_ell l.
+Proof.
+  induction 1 as [|t l Ht Hl IH]; [reflexivity|].
+  rewrite unlex_cons, memb_app, IH. destruct t as [c| | |]; try reflexivity.
+  change (memb c_dot (unlex1 (TL c))) with (Nat.eqb c_dot c || false).
+  destruct (is_letter_not_reserved c Ht) as [_ [_ [_ [D _]]]].
+  replace (Nat.eqb c_dot c) with false by (symmetry; apply Nat.eqb_neq; intro; apply D; auto). reflexivity.
+Qed.
+
+Lemma tsplit_comma_flat {A} (f : tok -> list A) l : f TComma = [] ->
+  concat (map (fun p => concat (map f p)) (tsplit is_comma l)) = concat (map f l).
+Proof.
+  intro Hf. induction l as [|t l IH]; [reflexivity|].
+  cbn [tsplit]. destruct (is_comma t) eqn:E.
+  - destruct t; try discriminate. cbn [map concat]. rewrite Hf, IH. reflexivity.
+  - destruct (tsplit is_comma l) as [|h tl] eqn:S; [exfalso; eapply tsplit_nonempty; exact S|].
+    cbn [map concat] in *. rewrite <- IH. rewrite app_assoc. reflexivity.
+Qed.
+Lemma letters_of_tsplit l : concat (map letters_of (tsplit is_comma l)) = letters_of l.
+Proof. unfold letters_of. apply tsplit_comma_flat. reflexivity. Qed.
+Lemma existsb_ell_tsplit l : existsb (existsb is_ell) (tsplit is_comma l) = existsb is_ell l.
+Proof.
+  induction l as [|t l IH]; [reflexivity|].
+  cbn [tsplit]. destruct (is_comma t) eqn:E.
+  - destruct t; try discriminate. cbn. exact IH.
+  - destruct (tsplit is_comma l) as [|h tl] eqn:S; [exfalso; eapply tsplit_nonempty; exact S|].
+    cbn in *. rewrite <- IH. rewrite orb_assoc. reflexivity.
+Qed.
+Lemma tsplit_comma_only_labels l : Forall lhs_tok l -> forallb only_labels (tsplit is_comma l) = true.
+Proof.
+  induction 1 as [|t l Ht Hl IH]; [reflexivity|].
+  cbn [tsplit]. destruct (is_comma t) eqn:E; [cbn; exact IH|].
+  destruct (tsplit is_comma l) as [|h tl] eqn:S; [exfalso; eapply tsplit_nonempty; exact S|].
+  cbn in *. apply andb_true_iff in IH. destruct IH as [I1 I2]. rewrite I2, andb_true_r.
+  unfold only_labels in *. cbn. rewrite I1. destruct t; try reflexivity; [discriminate|contradiction].
+Qed.
+Lemma tsplit_forall {P : tok -> Prop} sep l : Forall P l -> Forall (Forall P) (tsplit sep l).
+Proof.
+  induction 1 as [|t l Ht Hl IH]; cbn; [repeat constructor|].
+  destruct (sep t); [constructor; [constructor|exact IH]|].
+  destruct (tsplit sep l) as [|h tl]; [repeat constructor; exact Ht|].
+  inversion IH; subst. constructor; [constructor; assumption|assumption].
+Qed.
+
+Lemma n_ell_zero_iff t : n_ell t = 0 <-> existsb is_ell t = false.
+Proof.
+  unfold n_ell. induction t as [|x t IH]; cbn; [tauto|].
+  destruct (is_ell x); cbn; [split; [lia|discriminate]|exact IH].
+Qed.
+
+(* count of a character in the comma-free left-hand side *)
+Lemma count_lhs x l : Forall tok_ok l -> Forall lhs_tok l ->
+  count x (filter (fun c => negb (Nat.eqb c c_comma)) (unlex l)) =
+  count x (letters_of l) + (if Nat.eqb x c_dot then 3 * n_ell l else 0).
+Proof.
+  induction 1 as [|t l Ht Hl IH]; intro Hlt; [cbn; destruct (Nat.eqb x c_dot); reflexivity|].
+  inversion Hlt as [|? ? L1 L2]; subst. specialize (IH L2).
+  rewrite unlex_cons, filter_app, count_app, IH, letters_of_cons, count_app, n_ell_cons.
+  destruct t as [c| | |]; cbn [unlex1 is_ell]; try contradiction.
+  - destruct (is_letter_not_reserved c Ht) as [_ [D1 [_ [D2 _]]]].
+    cbn [filter]. replace (Nat.eqb c c_comma) with false by (symmetry; apply Nat.eqb_neq; exact D1).
+    cbn [negb count]. destruct (Nat.eqb x c_dot) eqn:E; lia.
+  - change (filter (fun c => negb (Nat.eqb c c_comma)) [c_dot; c_dot; c_dot]) with [c_dot; c_dot; c_dot].
+    change (count x [c_dot; c_dot; c_dot]) with
+      ((if Nat.eqb c_dot x then 1 else 0) + ((if Nat.eqb c_dot x then 1 else 0) + ((if Nat.eqb c_dot x then 1 else 0) + 0))).
+    change (count x []) with 0. rewrite (Nat.eqb_sym c_dot x).
+    destruct (Nat.eqb x c_dot) eqn:E; lia.
+  - change (filter (fun c => negb (Nat.eqb c c_comma)) [c_comma]) with (@nil nat).
+    change (count x []) with 0. destruct (Nat.eqb x c_dot); lia.
+Qed.
+
+Lemma letters_are_letters l : Forall tok_ok l -> forall c, In c (letters_of l) -> is_letter c = true.
+Proof.
+  induction 1 as [|t l Ht Hl IH]; intros c Hc; [destruct Hc|].
+  rewrite letters_of_cons in Hc. apply in_app_or in Hc. destruct Hc as [Hc|Hc]; [|apply IH; exact Hc].
+  destruct t; cbn in Hc; try contradiction. destruct Hc as [<-|[]]. exact Ht.
+Qed.
+
+(* strictly increasing lists are determined by their elements *)
+Lemma sorted_lt_unique l1 : forall l2, StronglySorted lt l1 -> StronglySorted lt l2 ->
+  (forall x, In x l1 <-> In x l2) -> l1 = l2.
+Proof.
+  induction l1 as [|a l1 IH]; intros l2 H1 H2 Hin.
+  - destruct l2 as [|b l2]; [reflexivity|]. exfalso. apply (Hin b). left; reflexivity.
+  - destruct l2 as [|b l2]; [exfalso; apply (Hin a); left; reflexivity|].
+    inversion H1 as [|? ? H1' A1]; inversion H2 as [|? ? H2' A2]; subst.
+    rewrite Forall_forall in A1, A2.
+    assert (a = b).
+    { destruct (proj1 (Hin a) (or_introl eq_refl)) as [E|Hb]; [auto|].
+      destruct (proj2 (Hin b) (or_introl eq_refl)) as [E|Ha]; [auto|].
+      specialize (A1 _ Ha). specialize (A2 _ Hb). lia. }
+    subst b. f_equal. apply IH; auto. intro x. split; intro Hx.
+    + destruct (proj1 (Hin x) (or_intror Hx)) as [E|]; [|assumption]. subst x. specialize (A1 _ Hx). lia.
+    + destruct (proj2 (Hin x) (or_intror Hx)) as [E|]; [|assumption]. subst x. specialize (A2 _ Hx). lia.
+Qed.
+Lemma sorted_le_nodup_lt l : StronglySorted le l -> NoDup l -> StronglySorted lt l.
+Proof.
+  induction 1 as [|a l Hs IH Hall]; intro Hnd; constructor.
+  - apply IH. inversion Hnd; assumption.
+  - inversion Hnd as [|? ? Hni _]; subst. rewrite Forall_forall in *. intros b Hb.
+    specialize (Hall b Hb). assert (a <> b) by (intro; subst; contradiction). lia.
+Qed.
+Lemma sorted_filter {A} (R : A -> A -> Prop) f l : StronglySorted R l -> StronglySorted R (filter f l).
+Proof.
+  induction 1 as [|a l Hs IH Hall]; cbn; [constructor|].
+  destruct (f a); [|exact IH]. constructor; [exact IH|].
+  rewrite Forall_forall in *. intros b Hb. apply filter_In in Hb. apply Hall. tauto.
+Qed.
+Lemma sort_unique_lt l : StronglySorted lt (sort_nat (unique l)).
+Proof.
+  apply sorted_le_nodup_lt; [apply sort_nat_sorted|].
+  eapply Permutation_NoDup; [symmetry; apply sort_nat_perm|apply unique_nodup].
+Qed.
+Lemma once_sorted_in l x : In x (once_sorted l) <-> count x l = 1.
+Proof.
+  unfold once_sorted. rewrite filter_In, sort_nat_in, unique_in, Nat.eqb_eq. split; [tauto|].
+  intro H. split; [apply count_pos; lia|exact H].
+Qed.
+Lemma once_sorted_sorted l : StronglySorted lt (once_sorted l).
+Proof. apply sorted_filter, sort_unique_lt. Qed.
+
+(* (1) implicit output: find_output_str of the rendered left-hand side is numpy's rule *)
+Lemma find_output_str_unlex l : Forall tok_ok l -> Forall lhs_tok l ->
+  find_output_str (unlex l) = once_sorted (letters_of l).
+Proof.
+  intros Hk Hl. unfold find_output_str. fold (once_sorted (filter (fun x => negb (Nat.eqb x c_comma)) (unlex l))).
+  apply sorted_lt_unique; try apply once_sorted_sorted.
+  intro x. rewrite !once_sorted_in, (count_lhs x l Hk Hl).
+  destruct (Nat.eqb x c_dot) eqn:E; [|lia].
+  apply Nat.eqb_eq in E. subst x.
+  assert (count c_dot (letters_of l) = 0).
+  { apply count_zero. intro H. apply (letters_are_letters l Hk) in H. discriminate H. }
+  lia.
+Qed.
+
+(* --- the output --- *)
+Lemma rho_LN E l : map (rho E) (map LN l) = l.
+Proof. rewrite map_map. cbn. apply map_id. Qed.
+
+Lemma output_explicit E N all o nout : only_labels o = true -> Forall tok_ok o -> length E = N ->
+  np_output N all (Some o) = Some nout ->
+  match check_ellipsis (unlex o) with
+  | None => None
+  | Some true => Some (replace_ell E (unlex o))
+  | Some false => Some (unlex o)
+  end = Some (map (rho E) nout).
+Proof.
+  intros Ho Hk HE. unfold np_output.
+  destruct (negb (nodupb (letters_of o))); [discriminate|].
+  destruct (negb (forallb (fun c => memb c all) (letters_of o))); [discriminate|].
+  rewrite (check_ellipsis_unlex o Ho Hk).
+  destruct (n_ell o) as [|[|k]] eqn:En.
+  - destruct (Nat.eqb N 0) eqn:EN; [|discriminate]. intro H; inversion H; subst nout.
+    f_equal. rewrite rho_expand_toks by (auto; lia). apply unlex_no_ell; auto.
+  - intro H; inversion H; subst nout. f_equal.
+    rewrite rho_expand_toks by (auto; lia). rewrite HE, Nat.sub_diag. cbn [skipn].
+    apply replace_ell_unlex; auto.
+  - discriminate.
+Qed.
+
+Lemma output_implicit E N lhs nout : Forall tok_ok lhs -> Forall lhs_tok lhs -> length E = N ->
+  np_output N (letters_of lhs) None = Some nout ->
+  E ++ find_output_str (unlex lhs) = map (rho E) nout.
+Proof.
+  intros Hk Hl HE. unfold np_output. intro H; inversion H; subst nout.
+  rewrite map_app, rho_bdims by lia. rewrite HE, Nat.sub_diag. cbn [skipn].
+  rewrite rho_LN. f_equal. apply find_output_str_unlex; auto.
+Qed.
+
+Lemma noell_terms E ops : forall nbs, length nbs = length ops ->
+  forallb only_labels ops = true -> (forall t, In t ops -> n_ell t = 0) ->
+  Forall (fun nb => nb <= length E) nbs ->
+  map unlex ops = map (map (rho E)) (map (fun tn => expand_toks (snd tn) (fst tn)) (combine ops nbs)).
+Proof.
+  induction ops as [|t ops IH]; intros nbs HL Ho Hz Hnb; [reflexivity|].
+  destruct nbs as [|nb nbs]; [discriminate|]. cbn in HL.
+  cbn in Ho. apply andb_true_iff in Ho. destruct Ho as [Ho1 Ho2]. inversion Hnb as [|? ? B1 B2]; subst.
+  cbn [map combine fst snd]. f_equal.
+  - rewrite rho_expand_toks by auto. apply unlex_no_ell; [exact Ho1|apply Hz; left; reflexivity].
+  - apply IH; auto. intros; apply Hz; right; assumption.
+Qed.
+
+Lemma fold_max_zero l : (forall x, In x l -> x = 0) -> fold_left Nat.max l 0 = 0.
+Proof.
+  intro H. destruct (fold_max_attained l 0) as [E|Hin]; [exact E|]. apply H. exact Hin.
+Qed.
+
+Lemma no_arrow_lhs_tok l : Forall no_arrow l -> Forall lhs_tok l.
+Proof. apply Forall_impl. intros t H. destruct t; cbn; auto. discriminate H. Qed.
+
+Lemma existsb_ell_ops ops : existsb (existsb is_ell) ops = true -> exists t, In t ops /\ n_ell t <> 0.
+Proof.
+  intro H. apply existsb_exists in H. destruct H as [t [Ht E]]. exists t. split; [exact Ht|].
+  intro Z0. apply n_ell_zero_iff in Z0. congruence.
+Qed.
+Lemma existsb_ell_ops_false ops : existsb (existsb is_ell) ops = false -> forall t, In t ops -> n_ell t = 0.
+Proof.
+  intros H t Ht. apply n_ell_zero_iff. destruct (existsb is_ell t) eqn:E; [|reflexivity].
+  assert (existsb (existsb is_ell) ops = true) by (apply existsb_exists; eauto). congruence.
+Qed.
+
+Lemma lhs_tok_no_arrow l : Forall lhs_tok l -> Forall no_arrow l.
+Proof. apply Forall_impl. intros t H. destruct t; cbn in *; try reflexivity. contradiction. Qed.
+
+(* THE token-level theorem: everything after lexing and splitting *)
+Lemma core_matches_numpy lhs out shapes nops nout :
+  Forall tok_ok lhs -> Forall lhs_tok lhs ->
+  (match out with Some o => Forall tok_ok o | None => True end) ->
+  np_core (tsplit is_comma lhs) out shapes = Some (nops, nout) ->
+  let inputs := split_char c_comma (unlex lhs) in
+  let E := match ell_needs inputs shapes with
+           | Some needs => match ellipses_inds_of inputs needs with Some (_, E) => E | None => [] end
+           | None => [] end in
+  (if negb (Nat.eqb (length inputs) (length shapes)) then None
+   else if memb c_dot (unlex lhs) then
+     match ell_needs inputs shapes with
+     | None => None
+     | Some needs =>
+       match ellipses_inds_of inputs needs with
+       | None => None
+       | Some (req, ellipses_inds) =>
+         let inputs' := expand_terms req ellipses_inds inputs needs in
+         match out with
+         | Some o =>
+           match check_ellipsis (unlex o) with
+           | None => None
+           | Some true => Some (inputs', replace_ell ellipses_inds (unlex o))
+           | Some false => Some (inputs', unlex o)
+           end
+         | None => Some (inputs', ellipses_inds ++ find_output_str (unlex lhs))
+         end
+       end
+     end
+   else
+     match out with
+     | Some o =>
+       match check_ellipsis (unlex o) with
+       | None => None
+       | Some true => Some (inputs, replace_ell [] (unlex o))
+       | Some false => Some (inputs, unlex o)
+       end
+     | None => Some (inputs, find_output_str (unlex lhs))
+     end) = Some (map (map (rho E)) nops, map (rho E) nout).
+Proof.
+  intros Hk Hl Hko. set (ops := tsplit is_comma lhs).
+  assert (Hops_k : Forall (Forall tok_ok) ops) by (apply tsplit_forall; exact Hk).
+  assert (Hops_o : forallb only_labels ops = true) by (apply tsplit_comma_only_labels; exact Hl).
+  unfold np_core. rewrite Hops_o. cbn [negb].
+  destruct (negb (match out with Some o => only_labels o | None => true end)) eqn:Eo; [discriminate|].
+  destruct (np_operands_nb ops shapes) as [nbs|] eqn:Enb; [|discriminate].
+  destruct (ell_needs_unlex ops shapes nbs Hops_o Hops_k Enb) as [N1 [N2 [N3 N4]]].
+  set (N := fold_left Nat.max nbs 0).
+  replace (concat (map letters_of ops)) with (letters_of lhs) by (symmetry; apply letters_of_tsplit).
+  destruct (np_output N (letters_of lhs) out) as [o'|] eqn:Eout; [|discriminate].
+  intro H; inversion H; subst nops nout. clear H.
+  cbn zeta. rewrite (split_comma_unlex lhs Hk (lhs_tok_no_arrow lhs Hl)).
+  fold ops. rewrite map_length, N3, Nat.eqb_refl. cbn [negb].
+  rewrite (memb_dot_unlex lhs Hk), <- (existsb_ell_tsplit lhs). fold ops. rewrite N1.
+  assert (Hnbs : Forall (fun nb => nb <= N) nbs).
+  { rewrite Forall_forall. intros nb Hnb. apply fold_max_ge. right. exact Hnb. }
+  destruct (existsb (existsb is_ell) ops) eqn:Eell.
+  - (* some operand has an ellipsis *)
+    unfold ellipses_inds_of.
+    rewrite (req_is_max ops nbs N2 N4 (existsb_ell_ops ops Eell)). fold N. rewrite Nat2Z.id.
+    set (E := fresh_symbols N (concat (map unlex ops))).
+    assert (HE : length E = N) by apply fresh_symbols_spec.
+    rewrite (expand_terms_spec E N ops nbs Hops_o Hops_k HE Hnbs).
+    destruct out as [o|].
+    + apply negb_false_iff in Eo.
+      pose proof (output_explicit E N (letters_of lhs) o o' Eo Hko HE Eout) as HO.
+      destruct (check_ellipsis (unlex o)) as [[|]|]; inversion HO; reflexivity.
+    + rewrite (output_implicit E N lhs o' Hk Hl HE Eout). reflexivity.
+  - (* no ellipsis on the left-hand side *)
+    pose proof (existsb_ell_ops_false ops Eell) as Hz.
+    assert (HN0 : N = 0).
+    { apply fold_max_zero. intros nb Hnb. destruct (In_nth _ _ 0 Hnb) as [j [Hj Ej]].
+      assert (Hc : In (nth j ops [], nb) (combine ops nbs)).
+      { rewrite <- Ej. rewrite <- combine_nth by lia. apply nth_In. rewrite combine_length. lia. }
+      rewrite Forall_forall in N4. apply (N4 _ Hc). cbn. apply Hz. apply nth_In. lia. }
+    assert (HE0 : match ellipses_inds_of (map unlex ops) (needs_of ops nbs) with Some (_, E) => E | None => [] end = []).
+    { unfold ellipses_inds_of. destruct (zmax_values (somes (needs_of ops nbs))) as [r|] eqn:Ez; [|reflexivity].
+      exfalso. unfold zmax_values in Ez. destruct (somes (needs_of ops nbs)) as [|v vs] eqn:ES; [discriminate|].
+      assert (Hv : In v (somes (needs_of ops nbs))) by (rewrite ES; left; reflexivity).
+      apply in_somes, in_needs_of in Hv. destruct Hv as [t [nb [Hc [Hne _]]]].
+      apply Hne, Hz. apply in_combine_l in Hc. exact Hc. }
+    rewrite HE0.
+    assert (Hnbs0 : Forall (fun nb => nb <= length (@nil nat)) nbs).
+    { eapply Forall_impl; [|exact Hnbs]. cbn. intros; lia. }
+    rewrite <- (noell_terms [] ops nbs N2 Hops_o Hz Hnbs0).
+    destruct out as [o|].
+    + apply negb_false_iff in Eo.
+      pose proof (output_explicit [] N (letters_of lhs) o o' Eo Hko (eq_sym HN0) Eout) as HO.
+      destruct (check_ellipsis (unlex o)) as [[|]|]; inversion HO; reflexivity.
+    + rewrite <- (output_implicit [] N lhs o' Hk Hl (eq_sym HN0) Eout). reflexivity.
+Qed.
+
+(* --- (1)+(2): the string form, for ALL strings numpy accepts --- *)
+Theorem string_matches_numpy eq shapes nops nout :
+  np_parse eq shapes = Some (nops, nout) ->
+  let E := model_ellipses_inds (strip_spaces eq) shapes in
+  parse_equation_ellipses_v true (strip_spaces eq) shapes = Some (map (map (rho E)) nops, map (rho E) nout).
+Proof.
+  unfold np_parse. destruct (np_lex eq) as [ts|] eqn:L; [|discriminate].
+  destruct (np_lex_sound (length eq) eq ts (le_n _) L) as [S1 K].
+  pose proof (tsplit_forall is_arrow ts K) as KP.
+  pose proof (tsplit_arrow_no_arrow ts) as NP.
+  pose proof (split_arrow_unlex ts K) as SA.
+  destruct (tsplit is_arrow ts) as [|lhs [|rhs [|x y]]] eqn:SP; try discriminate.
+  - intro H. inversion KP as [|? ? K1 _]; subst. inversion NP as [|? ? A1 _]; subst.
+    cbn zeta. unfold parse_equation_ellipses_v, model_ellipses_inds. rewrite S1, SA. cbn [map hd tl].
+    exact (core_matches_numpy lhs None shapes nops nout K1 (no_arrow_lhs_tok lhs A1) I H).
+  - intro H. inversion KP as [|? ? K1 KP']; subst. inversion KP' as [|? ? K2 _]; subst.
+    inversion NP as [|? ? A1 _]; subst.
+    cbn zeta. unfold parse_equation_ellipses_v, model_ellipses_inds. rewrite S1, SA. cbn [map hd tl].
+    exact (core_matches_numpy lhs (Some rhs) shapes nops nout K1 (no_arrow_lhs_tok lhs A1) K2 H).
+Qed.
+
+Lemma list_eqb_nat_refl (l : list nat) : list_eqb Nat.eqb l l = true.
+Proof. apply list_eqb_nat_eq. reflexivity. Qed.
+Lemma ops_eqb_refl a : ops_eqb a a = true.
+Proof.
+  unfold ops_eqb. rewrite list_eqb_nat_refl, andb_true_r.
+  induction (fst a) as [|x l IH]; cbn; [reflexivity|]. rewrite list_eqb_nat_refl, IH. reflexivity.
+Qed.
+
+(* in the vocabulary of the check: the verdict is never `Some false` *)
+Theorem string_agrees_with_numpy fx eq shapes :
+  fx_spaces fx = true -> fx_outell fx = true ->
+  agrees_args_v fx (AStr eq shapes) = match np_parse eq shapes with Some _ => Some true | None => None end.
+Proof.
+  intros F1 F2. unfold agrees_args_v. cbn [np_parse_args einsum_eq_v eargs_shapes]. rewrite F1, F2.
+  destruct (np_parse eq shapes) as [[nops nout]|] eqn:P; [|reflexivity].
+  pose proof (string_matches_numpy eq shapes nops nout P) as H. cbn zeta in H.
+  unfold rho_args. fold (rho (model_ellipses_inds (strip_spaces eq) shapes)).
+  change (fun l : lab => match l with LN c => c | LB k => nth (length (model_ellipses_inds (strip_spaces eq) shapes) - 1 - k) (model_ellipses_inds (strip_spaces eq) shapes) 0 end)
+    with (rho (model_ellipses_inds (strip_spaces eq) shapes)).
+  rewrite H. rewrite ops_eqb_refl. reflexivity.
+Qed.
+
+(* the renaming is injective: the ellipsis symbols are pairwise distinct and occur in no input term *)
+Lemma model_ellipses_inds_fresh eq shapes :
+  let E := model_ellipses_inds eq shapes in
+  NoDup E /\ forall s, In s E -> ~ In s (concat (split_char c_comma (hd [] (split_arrow eq)))).
+Proof.
+  unfold model_ellipses_inds.
+  destruct (ell_needs _ shapes) as [needs|]; [|split; [constructor|intros ? []]].
+  unfold ellipses_inds_of. destruct (zmax_values (somes needs)) as [req|]; [|split; [constructor|intros ? []]].
+  destruct (fresh_symbols_spec (Z.to_nat req) (concat (split_char c_comma (hd [] (split_arrow eq))))) as [_ [H1 H2]].
+  split; [exact H1|]. intros s Hs. apply H2. exact Hs.
+Qed.
+
+Theorem rho_injective used E : NoDup E -> (forall s, In s E -> ~ In s used) ->
+  forall l1 l2, label_in used E l1 -> label_in used E l2 -> rho E l1 = rho E l2 -> l1 = l2.
+Proof.
+  intros Hnd Hfresh [c1|k1] [c2|k2] H1 H2; cbn in *; intro Heq.
+  - congruence.
+  - exfalso. apply (Hfresh c1); [|exact H1]. rewrite Heq. apply nth_In. lia.
+  - exfalso. apply (Hfresh c2); [|exact H2]. rewrite <- Heq. apply nth_In. lia.
+  - f_equal. assert (length E - 1 - k1 = length E - 1 - k2); [|lia].
+    apply (proj1 (NoDup_nth E 0) Hnd); [lia|lia|exact Heq].
+Qed.
+
 (* ------------------------------------------------------------------ *)
 (* bounded exhaustive comparison of the model with NumpySpec (vm_compute) *)
 Definition sweep_pres : list (list nat) := [[]; [98]; [66]; [98; 66]].
